@@ -99,7 +99,7 @@ func (o nextObs) coq() string {
 	return fmt.Sprintf("ONext %s %s", coqBool(o.ret), coqOpt(o.row >= 0, coqZ(o.row)))
 }
 
-func rowID(m map[string]any) int64 {
+func qRowID(m map[string]any) int64 {
 	if m == nil {
 		return -1
 	}
@@ -184,7 +184,7 @@ func runCursorScenario(c *Ctx, fixed bool, script string) (term string, desc map
 	doNext := func() {
 		sc.consumer.start(func() {
 			ok := sc.r.Next()
-			sc.nextObs = append(sc.nextObs, nextObs{ret: ok, row: rowID(sc.r.Row())})
+			sc.nextObs = append(sc.nextObs, nextObs{ret: ok, row: qRowID(sc.r.Row())})
 		})
 		sc.consumer.settle(settleShort)
 	}
@@ -571,12 +571,12 @@ func runCursorScenario(c *Ctx, fixed bool, script string) (term string, desc map
 		"err": finalErr.kind, "err_text": finalErr.text, "rows_returned": returned, "rows_matched": finalStats.RowsMatched,
 		"cancelled": sc.cancelled, "closers": nClosers, "workers": nWorkers}
 	c.dist("cursor_err", finalErr.kind)
-	c.dist("cursor_events", bucket(len(evs)))
+	c.dist("cursor_events", qBucket(len(evs)))
 	nontrivial = len(evs) >= 8 && returned+len(sc.errIDs)+len(sc.stats) > 0
 	return term, desc, kindSeq, nontrivial
 }
 
-func bucket(n int) string {
+func qBucket(n int) string {
 	switch {
 	case n < 10:
 		return "<10"
